@@ -38,6 +38,8 @@ class Scalar (R : Type) extends Add R, Sub R, Mul R, Div R, Neg R, LT R, LE R wh
   atan2 : R → R → R
   pow   : R → R → R
   fmod  : R → R → R
+  /-- `std::log10`; instances that do not name it get `log x / log 10` (the `Float` instance binds libm's `log10`) -/
+  log10 : R → R := fun x => log x / log (ofNat 10)
   /-- `Consts::PI` -/
   pi     : R
   /-- `std::numeric_limits<double>::epsilon()` -/
